@@ -491,7 +491,7 @@ class Body:
         rv = st['rv']
         if rv['r'] != 'discr':
             return None
-        return self.place_type(rv['p'])
+        return rv.get('ty') or self.place_type(rv['p'])
 
     def place_type(self, place):
         """type string of a place when it can be read off the local's declared type (no field projection);
@@ -749,3 +749,20 @@ def _root_var(self, op_or_place, depth=0):
 
 
 Body.root_var = _root_var
+
+
+def _whole_def_expr(self, l):
+    """expression of the unique whole-local definition of l, ignoring partial (field) writes; None if not unique"""
+    ds = [x for x in self.defs.get(l, []) if x[2]]
+    if len(ds) != 1 or (l != 0 and l <= self.argc):
+        return None
+    b, i, _ = ds[0]
+    if i == 't':
+        t = self.term(b)
+        if t['t'] == 'call':
+            return self._expr_call(b, t, 1, frozenset({l}))
+        return None
+    return self._expr_rvalue(self.stmts(b)[i]['rv'], 1, frozenset({l}))
+
+
+Body.whole_def_expr = _whole_def_expr
